@@ -53,7 +53,7 @@ def main():
         # the driver is part of the machinery, but it also imports Generated tables: a table that
         # no longer type-checks lands here.  No model => cannot tie; treat as broken obligation.
         proof_problems.append("model driver does not build:\n" + log_drv[-1500:])
-    ok_prf, log_prf = core.lean_build(["LitedramVerif.Props." + pid])
+    ok_prf, log_prf = core.lean_build(["LitedramVerif.Props." + m for m in core.prop_modules(pid)])
     if not ok_prf:
         proof_problems.append("proof module Props/%s.lean no longer checks:\n%s" % (pid, log_prf[-2500:]))
 
@@ -64,7 +64,7 @@ def main():
         if not audit["ok"]:
             proof_problems += audit["problems"]
         if tier == "thorough":
-            rc, out = core.sh(["lake", "env", "leanchecker", "LitedramVerif.Props." + pid], cwd=core.LEAN, timeout=3000)
+            rc, out = core.sh(["lake", "env", "leanchecker"] + ["LitedramVerif.Props." + m for m in core.prop_modules(pid)], cwd=core.LEAN, timeout=3000)
             audit["leanchecker_rc"] = rc
             if rc != 0:
                 proof_problems.append("leanchecker rejected Props.%s: %s" % (pid, out[-800:]))
